@@ -56,6 +56,18 @@ type TableSpec struct {
 	// RetRender, if set, renders a non-constant result of a return of Fn (used to
 	// decode returned composite literals); "" keeps the symbolic form.
 	RetRender func(ret *ssa.Return, i int) string
+	// DynMemory switches on the symbolic store: addresses whose indices are known
+	// on the path are named with those indices ("recv.HopFields[3]"), a load of a
+	// location not written on the path yields its symbolic initial content
+	// ("sym:recv.HopFields[3]"), fields of a symbolically copied struct read
+	// through ("sym:recv.InfoFields[2].ConsDir"), and the negation of a symbolic
+	// bool is symbolic ("sym:!..."). Loops whose bounds are atoms are unrolled by
+	// the constant propagation, whatever their form.
+	DynMemory bool
+	// CheckMem, if set, inspects the complete store written on the path (location ->
+	// last value, in the top frame's terms) after a cell was evaluated; a non-empty
+	// result is a violation of the cell.
+	CheckMem func(a map[string]string, mem map[string]string) string
 }
 
 type evalOutcome struct {
@@ -262,8 +274,40 @@ func (ev *evaluator) compute(f *frame, in ssa.Instruction, pred *ssa.BasicBlock,
 				f.env[x] = "false"
 			} else if a == "false" {
 				f.env[x] = "true"
+			} else if ev.spec.DynMemory && strings.HasPrefix(a, "sym:") {
+				if strings.HasPrefix(a, "sym:!") {
+					f.env[x] = "sym:" + a[5:]
+				} else {
+					f.env[x] = "sym:!" + a[4:]
+				}
 			}
 		case token.MUL:
+			if ev.spec.DynMemory {
+				addr := ev.dynAddr(f, x.X)
+				if at, ok := ev.atom(f, addr); ok {
+					f.env[x] = at
+					return
+				}
+				raddr := f.resolve(addr)
+				if r, ok := out.Effects[f.memKey(addr)]; ok {
+					f.env[x] = r
+					return
+				}
+				// a field / element of a location that was written as a whole
+				for i := len(raddr) - 1; i > 0; i-- {
+					if raddr[i] != '.' && raddr[i] != '[' {
+						continue
+					}
+					if r, ok := out.Effects["@mem@"+raddr[:i]]; ok && strings.HasPrefix(r, "sym:") && !strings.HasPrefix(r, "sym:!") {
+						f.env[x] = r + raddr[i:]
+						return
+					}
+				}
+				if _, isAlloc := rootOfAddr(x.X).(*ssa.Alloc); !isAlloc {
+					f.env[x] = "sym:" + raddr
+				}
+				return
+			}
 			// load: known only if the location was stored to on this path
 			addr := f.syms.Sym(x.X)
 			// element of an array/slice at an index that is a known constant on this
@@ -374,8 +418,17 @@ func (ev *evaluator) compute(f *frame, in ssa.Instruction, pred *ssa.BasicBlock,
 		}
 	case *ssa.MakeInterface:
 		f.env[x] = ev.val(f, x.X)
+	case *ssa.Field:
+		if ev.spec.DynMemory {
+			if a := ev.val(f, x.X); strings.HasPrefix(a, "sym:") && !strings.HasPrefix(a, "sym:!") {
+				f.env[x] = a + "." + fieldName(x.X.Type(), x.Field)
+			}
+		}
 	case *ssa.Store:
 		addr := f.syms.Sym(x.Addr)
+		if ev.spec.DynMemory {
+			addr = ev.dynAddr(f, x.Addr)
+		}
 		val := ev.val(f, x.Val)
 		if val == absUnknown {
 			val = "sym:" + f.syms.Sym(x.Val)
@@ -576,7 +629,17 @@ func RunTable(c *Ctx, spec *TableSpec) {
 					c.Unknown(spec.Rule, construct, spec.Fn.Pos(), out.Undec)
 				}
 			default:
-				if msg := compareOutcome(out, want); msg != "" {
+				msg := compareOutcome(out, want)
+				if msg == "" && spec.CheckMem != nil {
+					mem := map[string]string{}
+					for k, v := range out.Effects {
+						if strings.HasPrefix(k, "@mem@") {
+							mem[k[5:]] = v
+						}
+					}
+					msg = spec.CheckMem(asg, mem)
+				}
+				if msg != "" {
 					bad++
 					if bad <= 6 {
 						c.Fail(spec.Rule, construct, spec.Fn.Pos(), msg)
@@ -698,6 +761,50 @@ func EvalFn(c *Ctx, fn *ssa.Function, params []string, noInline []string) *evalO
 	c.Cells++
 	out.Ret = ev.run(f, out, 2)
 	return out
+}
+
+// dynAddr renders an address with the indices that are known on this path.
+func (ev *evaluator) dynAddr(f *frame, v ssa.Value) string {
+	switch x := v.(type) {
+	case *ssa.IndexAddr:
+		base := stripAddr(ev.dynAddr(f, x.X))
+		if k := ev.val(f, x.Index); k != absUnknown && !strings.HasPrefix(k, "sym:") {
+			if i, _, ok := parseAbsInt(k); ok {
+				return fmt.Sprintf("%s[%d]", base, i)
+			}
+		}
+		return base + "[" + f.syms.Sym(x.Index) + "]"
+	case *ssa.FieldAddr:
+		return stripAddr(ev.dynAddr(f, x.X)) + "." + fieldName(x.X.Type(), x.Field)
+	case *ssa.UnOp:
+		if x.Op == token.MUL {
+			// the slice / pointer stored in a field: named by the field
+			switch x.X.(type) {
+			case *ssa.FieldAddr, *ssa.IndexAddr:
+				return ev.dynAddr(f, x.X)
+			}
+		}
+	}
+	return f.syms.Sym(v)
+}
+
+// rootOfAddr follows an address expression to its base object.
+func rootOfAddr(v ssa.Value) ssa.Value {
+	for {
+		switch x := v.(type) {
+		case *ssa.IndexAddr:
+			v = x.X
+		case *ssa.FieldAddr:
+			v = x.X
+		case *ssa.UnOp:
+			if x.Op != token.MUL {
+				return v
+			}
+			v = x.X
+		default:
+			return v
+		}
+	}
 }
 
 // nonNilSym prefixes the abstract value of an error built by a constructor that
